@@ -10,8 +10,9 @@ mkdir -p /tmp/mw
 git -C /repo worktree remove --force $WT 2>/dev/null
 git -C /repo worktree add -q --detach $WT HEAD || exit 2
 cd $WT
-if ! git apply "$D/patch.diff" 2>/dev/null; then
-  if ! patch -p1 --fuzz=3 -s < "$D/patch.diff"; then echo "PATCH-FAILED $D"; cd /; git -C /repo worktree remove --force $WT; exit 2; fi
+P="$D/patch.diff"; [ -f "$D/patch.ported.diff" ] && P="$D/patch.ported.diff"
+if ! git apply "$P" 2>/dev/null; then
+  if ! patch -p1 --fuzz=3 -s < "$P"; then echo "PATCH-FAILED $D"; cd /; git -C /repo worktree remove --force $WT; exit 2; fi
 fi
 MF=/verif/.work/mut-$name.mod
 mkdir -p /verif/.work
